@@ -941,6 +941,11 @@ pub fn run_program(prog: &Value, w: &mut dyn std::io::Write) -> u64 {
             out.last_rv = rv.to_string();
             ev.insert("rv".into(), rv);
         }
+        if vol.get("kind").and_then(Value::as_str) == Some("builder") {
+            if let Some(t) = builder::TRUTH.with(|t| t.borrow().get(&vol.to_string()).cloned()) {
+                ev.insert("truth".into(), t);
+            }
+        }
         if let Some(o) = prog.get("origin") {
             ev.insert("origin".into(), o.clone());
         }
